@@ -1062,6 +1062,9 @@ def vec_truncate(it, args, n, f):
 
 
 @model("<usize as std::convert::From<bool>>::from", "<u8 as std::convert::From<bool>>::from", "<u32 as std::convert::From<bool>>::from",
-       "<u64 as std::convert::From<bool>>::from", doc="false→0, true→1")
+       "<u64 as std::convert::From<bool>>::from", "std::convert::num::<impl std::convert::From<bool> for usize>::from",
+       "std::convert::num::<impl std::convert::From<bool> for u8>::from", "std::convert::num::<impl std::convert::From<bool> for u32>::from",
+       "std::convert::num::<impl std::convert::From<bool> for u64>::from", "std::convert::num::<impl std::convert::From<bool> for isize>::from",
+       doc="false→0, true→1")
 def int_from_bool(it, args, n, f):
     return IntV(1 if it.truth(args[0]) else 0)
